@@ -695,6 +695,12 @@ var svgDocs = []string{
 	`<svg width="10" height="6"><style>path{fill:red;stroke:#00f}.a{stroke-width:2}</style><path class="a" d="M0 0A2 1 30 012 0z" style="fill-rule:evenodd;stroke-dasharray:1 2;opacity:.5"/></svg>`,
 	`<svg width="10" height="6"><defs><linearGradient id="g" x1="0" y1="0" x2="1" y2="0"><stop offset="0" stop-color="#fff"/><stop offset="100%" stop-color="#000"/></linearGradient></defs><rect width="10" height="6" fill="url(#g)"/></svg>`,
 	`<?xml version="1.0"?><!-- c --><svg width="100%" height="50%" viewBox="0,0,10,6"><path d="m1 1h2v2h-2z" transform="matrix(1 0 0 -1 0 6)" stroke-linejoin="round" stroke-linecap="square" stroke-miterlimit="3"/></svg>`,
+	// documents that already contain one error (the parser records the first one and goes on): a
+	// mutation then makes a second one
+	`<svg width="4zz" height="6"><path d="M1 1L9 1L9 5z"/><path d="M0 0L3 3"/></svg>`,
+	`<svg width="10" height="6"><g transform="matrix(1 0)"><path d="M1 1L9 1L9 5z" fill="#f00"/></g><rect width="2" height="x"/><path d="M2 2H4"/></svg>`,
+	`<svg width="10" height="6"><path d="M1 1L9"/><path d="L2"/><path d="M0 0L1 1"/><polygon points="0 0 1"/></svg>`,
+	`<svg width="10" height="6"><defs><linearGradient id="g"><stop offset="0" stop-color="#fff"/></linearGradient></defs><rect width="2" height="2" fill='url("#g")' stroke='url("#")'/><circle r="1" fill="url(#g)" stroke="url(#)"/></svg>`,
 }
 
 func svgFamily() fw.Family {
@@ -782,7 +788,7 @@ func Prop() *fw.Property {
 		Level: "model_checking",
 		Rule: "printer side: every distinct state of the C10 call-history search (and a grid of numeric edge values): ParseSVGPath(String()) has the same data (1e-9), " +
 			"ParseSVGPath(ToSVG()) traces the same geometry within 10^(1-Precision)*scale for Precision 8 and 3, ToPDF and ToPS executed by independent operator interpreters trace the same geometry; " +
-			"parser side: every byte string up to the length bound over {M m L l H Z z A Q T C S 0 1 . - + e , space}, every one-byte truncation/deletion/substitution of 32 valid path strings and of 6 SVG documents: " +
+			"parser side: every byte string up to the length bound over {M m L l H Z z A Q T C S 0 1 . - + e , space}, every one-byte truncation/deletion/substitution of 32 valid path strings and of 10 SVG documents (three of which already contain errors, so that mutations give documents with two errors): " +
 			"returns a value or an error, never panics or hangs, and a returned path passes the C10 data-stream validator",
 		Assumptions: []string{
 			"states: builder histories up to depth 3 (quick) / 4 (thorough) over the C10 alphabet plus shape constructors; strings up to length 5 (quick) / 6 (thorough)",
